@@ -121,6 +121,10 @@ pub struct DelegCase {
     /// must fail naming `Tr::r2`, exactly as it would after direct calls only
     #[serde(default)]
     pub unmet_extra: bool,
+    /// Rc / Arc receivers: a `Weak` to the handle stays alive for the whole program (a sole STRONG owner is still the
+    /// sole owner; nothing may change)
+    #[serde(default)]
+    pub weak_alive: bool,
 }
 
 /// response of required method m for argument x (a known function, so results can be predicted)
@@ -313,6 +317,13 @@ pub fn source(c: &DelegCase) -> String {
         _ => format!("let mut h = {ctor};"),
     };
     s.push_str(&format!("    {wrap}\n"));
+    if c.weak_alive {
+        match c.recv {
+            Recv::RcShared | Recv::RcSole => s.push_str("    let _weak = std::rc::Rc::downgrade(&h);\n"),
+            Recv::ArcShared | Recv::ArcSole => s.push_str("    let _weak = std::sync::Arc::downgrade(&h);\n"),
+            _ => {}
+        }
+    }
     s.push_str("    let outcome = std::panic::catch_unwind(std::panic::AssertUnwindSafe(move || {\n        let mut results: Vec<String> = vec![];\n");
     let n_ops = c.history.len();
     for (i, op) in c.history.iter().enumerate() {
@@ -437,6 +448,8 @@ pub fn judge(c: &DelegCase, line: &str) -> Result<CaseInfo, String> {
     .class_if(c.partial, "partial-mock")
     .class_if(c.generic_method, "provided-method-has-a-type-parameter")
     .class_if(c.provided_has_real_fn, "provided-method-also-has-a-real-function")
+    .class_if(c.weak_alive && matches!(c.recv, Recv::RcSole | Recv::ArcSole), "sole-strong-owner-with-a-live-Weak")
+    .class_if(c.weak_alive && matches!(c.recv, Recv::RcShared | Recv::ArcShared), "shared-handle-with-a-live-Weak")
     .class_if(c.unmet_extra, "an-unmet-expectation-must-fail-the-final-verification")
     .class_if(c.assoc_const % 3 == 1, "body-reads-an-associated-const-supplied-by-the-attribute")
     .class_if(c.assoc_const % 3 == 2, "body-reads-an-associated-const-whose-trait-default-the-attribute-overrides")
@@ -497,9 +510,9 @@ pub fn case_strategy() -> impl Strategy<Value = DelegCase> {
         any::<bool>(),
         proptest::bool::weighted(0.4),
         any::<bool>(),
-        (prop_oneof![2 => Just(0u8), 1 => 1..8u8], proptest::bool::weighted(0.3), proptest::bool::weighted(0.3), proptest::bool::weighted(0.3), prop_oneof![2 => Just(0u8), 1 => Just(1u8), 1 => Just(2u8)], proptest::bool::weighted(0.3)),
+        (prop_oneof![2 => Just(0u8), 1 => 1..8u8], proptest::bool::weighted(0.3), proptest::bool::weighted(0.3), proptest::bool::weighted(0.3), prop_oneof![2 => Just(0u8), 1 => Just(1u8), 1 => Just(2u8)], proptest::bool::weighted(0.3), proptest::bool::weighted(0.5)),
     )
-        .prop_map(|(recv, mut body, mut history, ordered, explicit_default_impl, partial, later_answering_clause, (then_answer_after, generic_method, catch_all_default, provided_has_real_fn, assoc_const, unmet_extra))| {
+        .prop_map(|(recv, mut body, mut history, ordered, explicit_default_impl, partial, later_answering_clause, (then_answer_after, generic_method, catch_all_default, provided_has_real_fn, assoc_const, unmet_extra, weak_alive))| {
             if recv == Recv::Value {
                 // a by-value receiver is consumed by the first call it is passed to
                 body.calls.truncate(1);
@@ -508,11 +521,11 @@ pub fn case_strategy() -> impl Strategy<Value = DelegCase> {
                 }
                 history.truncate(1);
             }
-            DelegCase { recv, body, history, ordered, explicit_default_impl, partial, later_answering_clause, then_answer_after, generic_method, catch_all_default, provided_has_real_fn, assoc_const, unmet_extra }
+            DelegCase { recv, body, history, ordered, explicit_default_impl, partial, later_answering_clause, then_answer_after, generic_method, catch_all_default, provided_has_real_fn, assoc_const, unmet_extra, weak_alive }
         })
 }
 
-pub const RULE: &str = "programs = generated traits with two required methods and a provided method whose default body (drawn from an expression grammar) calls 0-3 required methods with values derived from its arguments and earlier results and combines the results; receiver kinds &self, &mut self, self, Rc<Self> / Arc<Self> (with an outer handle alive, and as sole owner), Pin<&mut Self>; required methods configured unordered with exact counts or as one ordered next_call sequence; histories of 1-6 operations mixing direct required calls and delegated calls, the provided method unmentioned or mentioned with applies_default_impl(); strict and partial mocks. Non-trivial = the body calls >= 2 required methods and the history has a delegated call plus another operation; distinct = distinct case";
+pub const RULE: &str = "programs = generated traits with two required methods and a provided method whose default body (drawn from an expression grammar) calls 0-3 required methods with values derived from its arguments and earlier results and combines the results; receiver kinds &self, &mut self, self, Rc<Self> / Arc<Self> (with an outer handle alive, and as sole owner; each with or without a live Weak), Pin<&mut Self>; required methods configured unordered with exact counts or as one ordered next_call sequence; histories of 1-6 operations mixing direct required calls and delegated calls, the provided method unmentioned or mentioned with applies_default_impl(); strict and partial mocks. Non-trivial = the body calls >= 2 required methods and the history has a delegated call plus another operation; distinct = distinct case";
 
 fn spec<'a>() -> Spec<'a, DelegCase> {
     Spec {
